@@ -58,6 +58,20 @@ func c11Check(m *ref.TSPacket) error {
 	if err != nil || n != 188 || !bytes.Equal(out, enc) {
 		return fmt.Errorf("re-emitting the packet returned by NextPacket = %x (n=%d err=%v)\noriginal                                         %x", out, n, err, enc)
 	}
+	// (d) the lengths the parser derives (adaptation_field_length, extension length) are not inputs of the writer: a
+	// struct that carries stale values for them (a parsed packet edited by the caller) is written from its content
+	if m.HasAF && !m.AF.Empty {
+		p := conv.PacketStruct(m, false)
+		stale := int(enc[5]) ^ 0x55 // a value derived from the packet, different from the true length for all lengths
+		p.AdaptationField.Length = stale
+		if x := p.AdaptationField.AdaptationExtensionField; x != nil {
+			x.Length = stale & 0x7f
+		}
+		out, n, err = writePacketOf(p)
+		if err != nil || n != 188 || !bytes.Equal(out, enc) {
+			return fmt.Errorf("WritePacket(model with stale derived Length fields %d) = %x (n=%d err=%v)\nreference %x", stale, out, n, err, enc)
+		}
+	}
 	return nil
 }
 
@@ -66,7 +80,7 @@ func tsNontrivial(m *ref.TSPacket) bool {
 }
 
 func TestC11Packets(t *testing.T) {
-	rec := obs.NewRecorder("C11", "packets", "rapid-generated conformant packets (any header, adaptation_field_control 01/10/11, empty/flags-only/full adaptation fields with any subset of PCR, OPCR, splice countdown, private data, extension{LTW, piecewise rate, seamless splice}, any stuffing, payload filling the rest; numeric fields biased to 0, all-ones and single-bit values); three oracles per packet: NextPacket(reference bytes)==model, WritePacket(model)==reference bytes, WritePacket(NextPacket(bytes))==bytes; non-trivial = adaptation field with at least one optional part; distinct by packet bytes")
+	rec := obs.NewRecorder("C11", "packets", "rapid-generated conformant packets (any header, adaptation_field_control 01/10/11, empty/flags-only/full adaptation fields with any subset of PCR, OPCR, splice countdown, private data, extension{LTW, piecewise rate, seamless splice}, any stuffing, payload filling the rest; numeric fields biased to 0, all-ones and single-bit values); four oracles per packet: NextPacket(reference bytes)==model, WritePacket(model)==reference bytes, WritePacket(NextPacket(bytes))==bytes, WritePacket(model with stale values in the derived Length fields)==reference bytes; non-trivial = adaptation field with at least one optional part; distinct by packet bytes")
 	defer rec.Flush()
 	rapid.Check(t, func(t *rapid.T) {
 		m := gen.TSPacket(t, "p")
